@@ -148,6 +148,48 @@ TraceStep ==
 TraceAccepted == Mode # "trace" \/ TLCGet("stats").diameter - 1 = Len(Trace)
 
 ---------------------------------------------------------------------------
+(* Graph mode (property C13): OpenPinch/analysis/graph_data.py _build_gcc_segments =                                    *)
+(* clean_composite_curve -> _segment_bounds -> _iter_gcc_segment_slices with _classify_segment.                          *)
+(* eps2 carries the is_utility_profile flag (0 / 1).  Points are <<H, T>>.                                               *)
+Class(dh, util) == IF dh = 0 THEN "V" ELSE IF dh > 0 THEN (IF util THEN "HotU" ELSE "Cold") ELSE (IF util THEN "ColdU" ELSE "Hot")
+SegBounds(c) ==     \* 1-based: first index whose step is non-zero, last index whose preceding step is non-zero
+  LET n == Len(c)
+      A == { i \in 1..(n - 1) : c[i][1] # c[i + 1][1] }
+      B == { i \in 2..n : c[i][1] # c[i - 1][1] }
+  IN  [start |-> IF A = {} THEN 1 ELSE Min(A), end |-> IF B = {} THEN n ELSE Max(B)]
+RECURSIVE Slices(_, _, _, _)
+Slices(c, j, end, util) ==
+  IF j >= end THEN <<>>
+  ELSE LET cls == Class(c[j][1] - c[j + 1][1], util)
+           RECURSIVE Ext(_)
+           Ext(k) == IF k < end /\ Class(c[k][1] - c[k + 1][1], util) = cls THEN Ext(k + 1) ELSE k
+           nj == Ext(j + 1)
+       IN  << [cls |-> cls, pts |-> SubSeq(c, j, nj)] >> \o Slices(c, nj, end, util)
+GraphSegs(c0, util) ==
+  LET c == CleanImpl(c0) IN
+  IF Len(c) < 2 THEN <<>> ELSE LET b == SegBounds(c) IN Slices(c, b.start, b.end, util)
+
+Segs == GraphSegs(curve, eps2 = 1)
+GraphDone == Mode = "graph" /\ phase = "done"
+(* every emitted point is a row of the table curve *)
+C13_PointsOnCurve == GraphDone => \A k \in 1..Len(Segs) : \A j \in 1..Len(Segs[k].pts) : \E i \in 1..Len(curve) : curve[i] = Segs[k].pts[j]
+(* consecutive segments share their end point, so the emitted points form one polyline *)
+C13_Contiguous == GraphDone => \A k \in 1..(Len(Segs) - 1) : Segs[k].pts[Len(Segs[k].pts)] = Segs[k + 1].pts[1]
+(* linear interpolation through the emitted points recovers every table row over the non-flat extent *)
+C13_RecoversRows ==
+  GraphDone =>
+    LET E == { i \in Extent(curve) : i >= 1 /\ i <= Len(curve) } IN
+    E # {} => \A i \in E : \E k \in 1..Len(Segs) : \E j \in 1..(Len(Segs[k].pts) - 1) : OnSegment(curve[i], Segs[k].pts[j], Segs[k].pts[j + 1])
+(* classification follows the sign of the enthalpy change, and is constant along a segment *)
+C13_SignClass ==
+  GraphDone => \A k \in 1..Len(Segs) : \A j \in 1..(Len(Segs[k].pts) - 1) :
+                  Segs[k].cls = Class(Segs[k].pts[j][1] - Segs[k].pts[j + 1][1], eps2 = 1)
+GraphStep == /\ Mode = "graph" /\ phase = "start"
+             /\ result' = CleanImpl(curve) /\ phase' = "done"
+             /\ UNCHANGED <<curve, eps2, stack, keep, l>>
+EmitGraph == (DoEmit /\ GraphDone) => PrintT(<<"CASE", ToJson([mode |-> Mode, curve |-> curve, util |-> eps2 = 1, segs |-> Segs])>>)
+
+---------------------------------------------------------------------------
 Coords == 0..MaxCoord
 (* clean: y strictly descending = subset of coordinates, x arbitrary in 0..2 *)
 (* rdp: monotone (non-strict) in both coordinates, repeated points allowed   *)
@@ -161,6 +203,11 @@ Init ==
             /\ \E n \in 3..MaxPts : \E Y \in SUBSET Coords : \E xs \in [1..n -> 0..2] :
                   /\ Cardinality(Y) = n
                   /\ curve = LET ys == SetToSortSeq(Y, LAMBDA a, b : a > b) IN [i \in 1..n |-> <<xs[i], ys[i]>>]
+       [] Mode = "graph" ->
+            /\ eps2 \in {0, 1} /\ phase = "start"
+            /\ \E n \in 3..MaxPts : \E Y \in SUBSET Coords : \E xs \in [1..n -> 0..2] :
+                  /\ Cardinality(Y) = n
+                  /\ curve = LET ys == SetToSortSeq(Y, LAMBDA a, b : a > b) IN [i \in 1..n |-> <<xs[i], ys[i]>>]
        [] Mode = "rdp" ->
             /\ phase = "start" /\ eps2 \in Eps2Set
             /\ \E n \in 2..MaxPts : \E xs \in Mono(n) : \E ys \in Mono(n) : curve = [i \in 1..n |-> <<xs[i], ys[i]>>]
@@ -171,7 +218,7 @@ CleanStep == /\ Mode = "clean" /\ phase = "start"
 RdpStart == /\ Mode = "rdp" /\ phase = "start"
             /\ stack' = << <<1, Len(curve)>> >> /\ keep' = 1..Len(curve) /\ phase' = "run"
             /\ UNCHANGED <<curve, eps2, result, l>>
-Next == CleanStep \/ RdpStart \/ RdpStep \/ TraceStep
+Next == CleanStep \/ GraphStep \/ RdpStart \/ RdpStep \/ TraceStep
 Spec == Init /\ [][Next]_vars
 
 EmitCase == (DoEmit /\ phase = "done") => PrintT(<<"CASE", ToJson([mode |-> Mode, curve |-> curve, eps2 |-> eps2, result |-> result])>>)
